@@ -197,7 +197,59 @@ var textFree = map[string]bool{"implode": true, "idx/.[$a]": true, "idx/.[$a]?":
 // calls whose object keys are made from number text.
 var textKeys = map[string]bool{"INDEX": true}
 
+// repSig: the Go kind of a value, for containers with the kinds of the
+// numbers inside.
+func repSig(v any) string {
+	kinds := map[string]bool{}
+	var walk func(v any)
+	walk = func(v any) {
+		switch x := v.(type) {
+		case []any:
+			for _, e := range x {
+				walk(e)
+			}
+		case map[string]any:
+			for _, e := range x {
+				walk(e)
+			}
+		default:
+			if isNum(v) {
+				kinds[kindOf(v)] = true
+			}
+		}
+	}
+	switch v.(type) {
+	case []any, map[string]any:
+		walk(v)
+		ks := make([]string, 0, len(kinds))
+		for k := range kinds {
+			ks = append(ks, k)
+		}
+		sortStrings(ks)
+		return kindOf(v) + "<" + strings.Join(ks, " ") + ">"
+	}
+	return kindOf(v)
+}
+
+func repCellKey(c callCase) string {
+	var sb strings.Builder
+	sb.WriteString("rep|" + c.Spec + "|" + repSig(c.In.X) + ">" + repSig(c.In2.X))
+	for i := range c.Args {
+		if c.Args[i].F != "" {
+			sb.WriteString("|F:" + c.Args[i].F)
+			continue
+		}
+		sb.WriteString("|" + repSig(c.Args[i].value()) + ">" + repSig(c.Args2[i].value()))
+	}
+	return sb.String()
+}
+
+// repNT is set by checkRep when both runs finished and the native run
+// returned at least one value.
+var repNT bool
+
 func checkRep(c callCase) string {
+	repNT = false
 	s := specByID[c.Spec]
 	if s == nil {
 		return "unknown spec " + c.Spec
@@ -265,7 +317,7 @@ func checkRep(c callCase) string {
 			show(c.In.X, c.Args), univ.ShowAll(r1.Vals), show(c.In2.X, c.Args2), univ.ShowAll(r2.Vals))
 	}
 	if r1.Err == nil && len(r1.Vals) > 0 {
-		rec.NT("rep|" + q + "|" + show(c.In.X, c.Args) + "|" + show(c.In2.X, c.Args2))
+		repNT = true
 		rec.Class("rep/values-compared")
 	} else if r1.Err != nil {
 		rec.Class("rep/both-error")
@@ -385,6 +437,9 @@ func runRep(t *testing.T) {
 					rec.Direct("rep", c, "%s", msg)
 				}
 			}
+			if repNT {
+				rec.NT(repCellKey(c)) // distinct cells x representations, not tuples
+			}
 		}
 	}
 	for si, s := range specs {
@@ -414,7 +469,7 @@ func runRep(t *testing.T) {
 			}
 			continue
 		}
-		count := rec.Scale(5000, 200000)
+		count := rec.Scale(10000, 200000)
 		for k := 0; k < count; k++ {
 			in := &repU[pickIndex(rec.Seed, len(repU), si, k, 0)]
 			for p := range cur {
@@ -433,7 +488,7 @@ func runRep(t *testing.T) {
 			live = append(live, s)
 		}
 	}
-	rec.Rapid(t, "rep-random", rec.Scale(60000, 1500000), func(t *rapid.T) {
+	rec.Rapid(t, "rep-random", rec.Scale(120000, 1000000), func(t *rapid.T) {
 		s := live[rapid.IntRange(0, len(live)-1).Draw(t, "spec")]
 		in1, in2 := genRepPair(t, "in")
 		c := callCase{Spec: s.ID, In: univ.V{X: in1}, In2: &univ.V{X: in2}}
@@ -450,6 +505,9 @@ func runRep(t *testing.T) {
 		rec.Sample(map[string]any{"sub": "rep-random", "query": s.query(c.Args), "in": univ.Show(c.In.X), "args": argKeys(c.Args), "in2": univ.Show(c.In2.X), "args2": argKeys(c.Args2)})
 		if msg := checkRep(c); msg != "" {
 			t.Fatalf("%s", rec.Fail("rep-random", c, "%s", msg))
+		}
+		if repNT {
+			rec.NT("repr|" + s.query(c.Args) + "|" + univ.Show(c.In.X) + "|" + univ.Show(c.In2.X) + "|" + strings.Join(argKeys(c.Args), "|") + "|" + strings.Join(argKeys(c.Args2), "|"))
 		}
 	})
 }
